@@ -346,6 +346,57 @@ var invalidations = []invalidation{
 		d.Mapping = []string{"Nope", "", "m0", "M0 "}[r.Intn(4)]
 		return true
 	})},
+	// what a file states twice it cannot state exactly: the accepted configuration would have to drop one of the two
+	{"the same sub-handler in two key blocks of one mapping", descEdit(func(r *simrt.Rng, d *model.Desc) bool {
+		m := &d.Mappings[r.Intn(len(d.Mappings))]
+		if len(m.Keys) == 0 || len(m.Keys[0].Keys) == 0 {
+			return false
+		}
+		dup := model.SubKeys{Sub: m.Keys[0].Sub, Keys: []model.KeyDesc{{Name: "KEY_KP5", Code: keyCode("KEY_KP5"), Note: 61, NoteText: "61"}}}
+		m.Keys = append(m.Keys, dup)
+		return true
+	})},
+	{"the same sub-handler in two analog blocks of one mapping", descEdit(func(r *simrt.Rng, d *model.Desc) bool {
+		for mi := range d.Mappings {
+			m := &d.Mappings[mi]
+			if len(m.Analog) > 0 && len(m.Analog[0].Axes) > 0 {
+				m.Analog = append(m.Analog, model.SubAnalog{Sub: m.Analog[0].Sub, Axes: []model.AxisDesc{{Name: "ABS_MISC", Code: absCode("ABS_MISC"), Type: "cc", CC: ip(7)}}})
+				return true
+			}
+		}
+		return false
+	})},
+	{"the same key under two spellings", descEdit(func(r *simrt.Rng, d *model.Desc) bool {
+		k := firstKey(d)
+		if k == nil || strings.HasPrefix(k.Name, "x") {
+			return false
+		}
+		for mi := range d.Mappings {
+			for si := range d.Mappings[mi].Keys {
+				sk := &d.Mappings[mi].Keys[si]
+				for _, kk := range sk.Keys {
+					if kk.Code == k.Code && kk.Name == k.Name {
+						sk.Keys = append(sk.Keys, model.KeyDesc{Name: fmt.Sprintf("x%x", k.Code), Code: k.Code, Note: (k.Note + 1) % 128, NoteText: fmt.Sprint((k.Note + 1) % 128)})
+						return true
+					}
+				}
+			}
+		}
+		return false
+	})},
+	{"colour outside 24 bits", descEdit(func(r *simrt.Rng, d *model.Desc) bool {
+		names := []string{"white", "black", "c", "unavailable", "other", "active", "active_external"}
+		d.Colors[names[r.Intn(len(names))]] = []int{0x1000000, 0x1ff0000, -1, 1 << 32}[r.Intn(4)]
+		return true
+	})},
+	{"default octave or semitone the device cannot hold", descEdit(func(r *simrt.Rng, d *model.Desc) bool {
+		if r.Chance(0.5) {
+			d.Octave = []int{128, 256, -129, 1000}[r.Intn(4)]
+		} else {
+			d.Semitone = []int{128, 130, -129, 100000}[r.Intn(4)]
+		}
+		return true
+	})},
 }
 
 const hangMarker = "HANG: LoadDeviceConfigs did not return within 20 s of wall-clock time"
